@@ -368,7 +368,7 @@ Proof.
   destruct (bind _ _) as [[[v p] t]|le at_ m| |]; cbn in G; try discriminate; try contradiction.
   intros H. injection H as <- <- <-. destruct G as [[pre ->] E].
   exists pre, at_. split; [reflexivity|]. split; [lia|].
-  unfold column. rewrite app_length.
+  unfold column. rewrite frev_eq, app_length.
   replace (length pre + length at_ - length at_)%nat with (length pre) by lia.
   rewrite firstn_app, Nat.sub_diag, firstn_all. cbn [firstn]. rewrite app_nil_r.
   now rewrite back_run_run.
